@@ -299,6 +299,57 @@ func runC18(r *Run, rng *Rng, thorough bool) {
 			r.Fail("verify-own-key", fmt.Sprintf("freshly decoded token does not verify under its key: %s", v1[k.id].res))
 		}
 	}
+	// several claims bad at once: validation, the validating encoders and SetClaims say the same thing every time
+	// (which of the offending claims is reported must not depend on anything that varies between calls)
+	for p := 1; p <= 2; p++ {
+		for rep := 0; rep < 40; rep++ {
+			d := baseValid(rng, p)
+			d.Canon = canonOf(p)
+			if d.Prof != nil {
+				d.Prof = sp(d.Canon)
+			}
+			bad := 0
+			if rng.Chance(75) {
+				d.VSI, bad = sp(""), bad+1
+			}
+			if rng.Chance(75) {
+				d.CID, bad = nil, bad+1
+			}
+			if rng.Chance(75) {
+				d.Boot, bad = bp(fill(5, 1)), bad+1
+			}
+			if rng.Chance(75) {
+				d.Cert, bad = sp("not-a-reference"), bad+1
+			}
+			if rng.Chance(40) {
+				d.Impl, bad = bp(fill(3, 1)), bad+1
+			}
+			if bad < 2 {
+				continue
+			}
+			normalise(&d)
+			c := d.Build()
+			r.ImplOnly("several-bad-claims", false, "repeat-validate "+d.Line())
+			say := func() string {
+				var e1, e2, e3 error
+				if pan, _ := safely(func() {
+					e1 = c.Validate()
+					_, e2 = psa.ValidateAndEncodeClaimsToCBOR(c)
+					e3 = (&psa.Evidence{}).SetClaims(c)
+				}); pan {
+					return "panic"
+				}
+				return fmt.Sprintf("%v | %v | %v", e1, e2, e3)
+			}
+			first := say()
+			for k := 0; k < 24; k++ {
+				if again := say(); again != first {
+					r.Fail("repeatable", fmt.Sprintf("validating the same unchanged claims-set twice gives different results:\n first: %s\n later: %s", first, again))
+					break
+				}
+			}
+		}
+	}
 	// extension claims of every kind (slices, pointers, a raw CBOR item, two levels of embedding): no reference to the buffer
 	richExt(r, rng, 300, map[string]string{"buffer": "no-buffer-reference"})
 }
